@@ -54,7 +54,9 @@ Pairs(fs) == {<<a, b>> : a \in fs, b \in fs}
 Triples(fs) == {<<a, b, c>> : a \in fs, b \in fs, c \in fs}
 Mixed == LET a == A("exact", FALSE, 0)  l == LzipDesc(<<M1>>, <<>>, 0)  x == XzDesc(<<S(1, 0)>>, <<>>, 0)
              l2 == LzipDesc(<<M0>>, <<88>>, 0)  a2 == A("unknown", TRUE, 0)  x2 == XzDesc(<<S(2, 4), S(1, 0)>>, <<>>, 0)
-         IN {<<a, l, x>>, <<x, a, l>>, <<l, x, a>>, <<a2, a, l2>>, <<x2, l2, a2>>, <<l, a, a2>>, <<a, x2, a2>>, <<a2, x, a>>}
+             at == A("exact", FALSE, 3)  at2 == A("unknown", TRUE, 1)     \* .lzma followed by foreign bytes
+         IN {<<l, at>>, <<l2, at2, a>>, <<x, at>>, <<l, at2, l>>, <<at, l>>,
+             <<a, l, x>>, <<x, a, l>>, <<l, x, a>>, <<a2, a, l2>>, <<x2, l2, a2>>, <<l, a, a2>>, <<a, x2, a2>>, <<a2, x, a>>}
 FCatCli == FCat \cup {{"CONCATENATED", "TELL_UNSUPPORTED_CHECK"}}
 SeqCases ==
     Cases(Pairs(AloneSeqFiles), {"alone"}, F0) \cup Cases(Pairs(AloneSeqFiles), {"auto"}, FCat)
